@@ -112,7 +112,7 @@ func GenStore(t *rapid.T, kind StoreKind, n int) []Pair {
 
 // GenStoreSize draws a store size: 0 to a few batches.
 func GenStoreSize(t *rapid.T) int {
-	return rapid.SampledFrom([]int{0, 1, 2, 3, 4, 6, 8, 11, 16, 24, 40, 70}).Draw(t, "storeSize")
+	return rapid.SampledFrom([]int{0, 1, 2, 3, 4, 6, 8, 11, 16, 24, 40, 70, 130}).Draw(t, "storeSize")
 }
 
 func GenKind(t *rapid.T) StoreKind {
@@ -389,6 +389,10 @@ func (c *GenCtx) KeyAtom(t *rapid.T) *Node {
 		return Bin("^=", Key(), lit())
 	case 6, 7:
 		n := rapid.IntRange(1, 4).Draw(t, "keyInN")
+		if len(c.Pairs) > 8 && rapid.IntRange(0, 7).Draw(t, "keyInLong") == 0 {
+			// a long list: more point reads than one batch holds
+			n = rapid.SampledFrom([]int{33, 40, 65, 70}).Draw(t, "keyInLongN")
+		}
 		items := make([]*Node, n)
 		for i := range items {
 			items[i] = lit()
